@@ -63,6 +63,12 @@ def fmtOp : Op Float → String
   | .sum e => s!"I sum {fmtExpr e}"
   | .get e i j => s!"I get {fmtExpr e} {i} {j}"
   | .vassign o e => s!"I vassign {nameOfIdx o} {fmtExpr e}"
+  | .sdiv d s => s!"I sdiv {fmtExpr d} {hx s}"
+  | .norms e => s!"I norms {fmtExpr e}"
+  | .abs e => s!"I abs {fmtExpr e}"
+  | .einv e => s!"I einv {fmtExpr e}"
+  | .ediv a b => s!"I ediv {fmtExpr a} {fmtExpr b}"
+  | .rcscale e r c => s!"I rcscale {fmtExpr e} {fmtExpr r} {fmtExpr c}"
 
 def opName : Op Float → String
   | .new .. => "new" | .resize .. => "resize" | .resizeKeep .. => "resizeKeep" | .clear .. => "clear"
@@ -72,11 +78,19 @@ def opName : Op Float → String
   | .rowscale .. => "rowscale" | .colscale .. => "colscale" | .mul .. => "mul" | .mulv .. => "mulv"
   | .dot .. => "dot" | .plus .. => "plus" | .minus .. => "minus" | .smul .. => "smul" | .deep .. => "deep"
   | .read .. => "read" | .nrm2 .. => "nrm2" | .sum .. => "sum" | .get .. => "get" | .vassign .. => "vassign"
+  | .sdiv .. => "sdiv" | .norms .. => "norms" | .abs .. => "abs" | .einv .. => "einv" | .ediv .. => "ediv"
+  | .rcscale .. => "rcscale"
 
 def fmtDense (tag : String) (d : Dense Float) : String :=
   (d.toList.foldl (fun s x => s ++ " " ++ hx x) s!"O {tag} {d.nr} {d.nc}")
 
 def absF (x : Float) : Nat := x.abs.toUInt64.toNat
+def scalF : Scal Float :=
+  ⟨absF, Float.abs, Float.sqrt, fun a b => if a < b then b else a, fun x => x == 0,
+   fun s x => (x / s).floor == x / s, Float.ofNat⟩
+/-- records whose model answer involves a square root or a division carry a tolerance line -/
+def needsTol : Op Float → Bool
+  | .norms .. => true | .einv .. => true | .ediv .. => true | _ => false
 
 /-! ### random generation -/
 abbrev Gen := StateM SplitMix
@@ -267,7 +281,8 @@ def propose (st : St Float) : Gen (Option (Op Float)) := do
     let r ← rnd 4
     return some (if r == 0 then .clear o else if r == 1 then .lock o else .unlock o)
   else if c < 16 then
-    let e ← rndExpr st false
+    let e ← rndExpr st true
+    if exprNoncontig st e then return none
     match shapeOfExpr st e with
     | some (nr, nc, _, _) =>
       if nr == 0 || nc == 0 then return none
@@ -275,15 +290,19 @@ def propose (st : St Float) : Gen (Option (Op Float)) := do
       return some (.set e i j v)
     | none => return none
   else if c < 20 then
-    let e ← rndExpr st false; let v ← rndVal
+    let e ← rndExpr st true; let v ← rndVal
+    if exprNoncontig st e then return none
     let r ← rnd 3
     return some (if r == 0 then .fill e v else if r == 1 then .zero e else .sassign e v)
   else if c < 44 then
-    -- in-place binary operations with a shape-matched source
-    let d ← rndExpr st false
+    -- in-place binary operations with a shape-matched source (one time in four the source may live in the same
+    -- owner as the destination; the model then requires the two views to be disjoint)
+    let d ← rndExpr st true
+    if exprNoncontig st d then return none
     match shapeOfExpr st d with
     | none => return none
-    | some (nr, nc, _, own) =>
+    | some (nr, nc, _, own0) =>
+      let own := if (← rnd 4) == 0 then 99 else own0
       let r ← rnd 8
       if r == 5 then
         match (← rndExprShaped st nr 1 own true) with
@@ -300,8 +319,12 @@ def propose (st : St Float) : Gen (Option (Op Float)) := do
                        else if r == 4 then .emul d s else .copy d s)
         | none => return none
   else if c < 52 then
-    let d ← rndExpr st false; let s ← rndScalar; let v ← rndVal
-    let r ← rnd 4
+    let d ← rndExpr st true; let s ← rndScalar; let v ← rndVal
+    if exprNoncontig st d then return none
+    let r ← rnd 5
+    if r == 4 then
+      let k ← rnd 4
+      return some (.sdiv d (if k == 0 then 2 else if k == 1 then -2 else if k == 2 then 4 else -1))
     return some (if r == 0 then .scale d s else if r == 1 then .negip d else if r == 2 then .eadd d v else .esubfrom d v)
   else if c < 55 then
     -- whole-owner assignment from an arbitrary view (reallocating copy)
@@ -347,10 +370,27 @@ def propose (st : St Float) : Gen (Option (Op Float)) := do
     let e ← rndExpr st true
     if orientRiskBad st e then return none
     if exprNoncontig st e && idxAny != 0 then return none
-    let r ← rnd 4
+    let r ← rnd 9
     if r == 0 || exprNoncontig st e then return some (.read e)
     else if r == 1 then return some (.nrm2 e)
     else if r == 2 then return some (.sum e)
+    else if r == 4 then return some (.norms e)
+    else if r == 5 then return some (.abs e)
+    else if r == 6 then return some (.einv e)
+    else if r == 7 then
+      match shapeOfExpr st e with
+      | some (nr, nc, _, _) =>
+        match (← rndExprShaped st nr nc 99 false) with
+        | some b => return some (.ediv e b)
+        | none => return none
+      | none => return none
+    else if r == 8 then
+      match shapeOfExpr st e with
+      | some (nr, nc, _, _) =>
+        match (← rndExprShaped st nr 1 99 true), (← rndExprShaped st nc 1 99 true) with
+        | some rr, some cc => return some (.rcscale e rr cc)
+        | _, _ => return none
+      | none => return none
     else
       match shapeOfExpr st e with
       | some (nr, nc, _, _) =>
@@ -396,13 +436,33 @@ def propose (st : St Float) : Gen (Option (Op Float)) := do
       if anr == 0 || anc == 0 || bnr < anr || bnc == 0 then return none
       let i ← rnd (bnr - anr + 1); let n ← rnd bnc
       return some (.mul o ⟨a, [.v .transpose, .v .negate]⟩ ⟨b, [.v .negate, .v (.block i 0 anr (n + 1))]⟩)
+  else if c < 99 then
+    -- source and destination in the SAME owner, disjoint: `A.col(j1) op= A.col(j2)`, rows, disjoint blocks
+    let o ← rnd 4
+    let (nr, nc, _) := handleShape st o
+    if nr < 2 || nc < 2 then return none
+    let k ← rnd 3
+    let (d, s) ← (do
+      if k == 0 then
+        let j1 ← rnd nc; let j2 ← rnd nc
+        pure (Expr.mk o [.v (.col j1)], Expr.mk o [.v (.col j2)])
+      else if k == 1 then
+        let i1 ← rnd nr; let i2 ← rnd nr
+        pure (Expr.mk o [.v (.row i1)], Expr.mk o [.v (.row i2)])
+      else
+        let m ← rnd (nr / 2); let n ← rnd nc
+        let m := m + 1; let n := n + 1
+        let j1 ← rnd (nc - n + 1); let j2 ← rnd (nc - n + 1)
+        pure (Expr.mk o [.v (.block 0 j1 m n)], Expr.mk o [.v (.block (nr - m) j2 m n), .v .negate]))
+    let r ← rnd 4
+    return some (if r == 0 then .copy d s else if r == 1 then .add d s else if r == 2 then .sub d s else .emul d s)
   else
     let o ← rnd 4
     let e ← rndExpr st false
     return some (.vassign o e)
 
 def emitStep (st : St Float) (op : Op Float) : Option (St Float × List String) :=
-  match step absF st op with
+  match step scalF st op with
   | .illegal => none
   | .exc cls => some (st, [fmtOp op, s!"O {opName op} EXC:{cls}"])
   | .ok st' results touched =>
@@ -410,7 +470,8 @@ def emitStep (st : St Float) (op : Op Float) : Option (St Float × List String) 
     let objs := (reportSet st' touched).map fun i =>
       let own := match st'[i]? with | some o => if o.isOwner then "owner" else "view" | none => "?"
       fmtDense s!"obj {nameOfIdx i} {own}" (contents st' i)
-    some (st', [fmtOp op] ++ rl ++ (if rl.isEmpty && objs.isEmpty then [s!"O {opName op} ok"] else objs))
+    some (st', [fmtOp op] ++ (if needsTol op then ["T 1e-12 0"] else []) ++ rl ++
+               (if rl.isEmpty && objs.isEmpty then [s!"O {opName op} ok"] else objs))
 
 partial def genBig (n : Nat) : Gen (List String) := do
   let mut st : St Float := initSt Float
@@ -458,8 +519,39 @@ def symLayout (n : Nat) : List Float :=
   (List.range n).flatMap fun i => (List.range (i + 1)).map fun j => Float.ofNat (symIx n i j)
 
 def smallRecord : Gen (List String) := do
-  let c ← rnd 17
-  if c == 16 then
+  let c ← rnd 19
+  if c == 17 then
+    -- general Mat<M,N> * Mat<N,P>, transposes, Row * Mat (sizes 1..6, non-square)
+    let shapes : List (Nat × Nat × Nat) := [(1,1,1), (2,3,4), (4,4,4), (5,5,5), (6,6,6), (3,2,5), (1,4,1), (6,1,6), (4,6,2)]
+    let (m, n, p) := shapes.getD (← rnd shapes.length) (1,1,1)
+    let mut a : List (List Float) := []
+    for _ in [0:m] do
+      let mut r : List Float := []
+      for _ in [0:n] do r := r ++ [← rndScalar]
+      a := a ++ [r]
+    let mut b : List (List Float) := []
+    for _ in [0:n] do
+      let mut r : List Float := []
+      for _ in [0:p] do r := r ++ [← rndScalar]
+      b := b ++ [r]
+    let mut v : List Float := []
+    for _ in [0:m] do v := v ++ [← rndScalar]
+    let ab := lmul n p a b
+    return [fl s!"I matmn {m} {n} {p}" (a.flatten ++ b.flatten ++ v),
+            fl "O matmn" (ab.flatten ++ (ltranspose m n a).flatten ++ (lmul n m (ltranspose n p b) (ltranspose m n a)).flatten
+                          ++ (ltranspose m p ab).flatten ++ lrowmul m n v a)]
+  else if c == 18 then
+    -- Vec<N> / Row<N> arithmetic at sizes 1, 4, 5, 6 (and 2, 3)
+    let sizes : List Nat := [1, 2, 3, 4, 5, 6]
+    let n := sizes.getD (← rnd sizes.length) 1
+    let mut a : List Float := []
+    let mut b : List Float := []
+    for _ in [0:n] do a := a ++ [← rndVal]; b := b ++ [← rndVal]
+    let s ← rndScalar
+    return [fl s!"I vecn {n}" (a ++ b ++ [s]),
+            fl "O vecn" (lvadd a b ++ lvsub a b ++ lvneg a ++ lvscale a s ++ [lvdot a b] ++ (louter a b).flatten
+                         ++ lvadd (lvneg a) b ++ [lvdot a a])]
+  else if c == 16 then
     -- harness-only: all mixed products / sums / differences of {complex, conjugate, real} × {plain, negator}
     let xs := [← rndVal, ← rndVal, ← rndVal, ← rndVal, ← rndVal, ← rndVal]
     return [fl "I scalarmix" xs, "O scalarmix ok"]
